@@ -10,7 +10,30 @@ EXT_CODES = ["ext/a", "ext-b", "zz"]
 WS_SEPS = [" ", "\t", ",", ", ", " ,", " , ", " ", "　", ",,", "  ", ",\t"]
 DEFAULT_FW = "deno-lint-ignore-file"
 DEFAULT_LW = "deno-lint-ignore"
-CUSTOM_WORDS = ["my-ignore", "my-ignore-file", "deno-lint-ignore-fil", "deno-lint-ignore", "deno-lint-ignore-file", "lint-off", "ig", "deno-lint-ignore-line"]
+CUSTOM_WORDS = ["my-ignore", "my-ignore-file", "deno-lint-ignore-fil", "deno-lint-ignore", "deno-lint-ignore-file", "lint-off", "ig", "deno-lint-ignore-line",
+                # words that mean something to a pattern language or are otherwise unusual: "all custom words"
+                "lint+ignore", "$lint-ignore", "(x)", "lint.ignore", "[lint-ignore]", "a|b", "x*", "lint\\d", "^ig", "ig$", "é-ignore", "IGNORE", "no", "{2}", "a?b"]
+
+
+def near_misses(w):
+    """words that a sloppy matcher would confuse with w"""
+    out = [w + "x", w.upper() if w.upper() != w else w.lower(), w[:-1] if len(w) > 1 else w + w]
+    for ch in ".+*?|":
+        if ch in w:
+            out += [w.replace(ch, "-"), w.replace(ch, "X"), w.replace(ch, "")]
+    if "|" in w:
+        out += w.split("|")
+    if w.startswith("^") or w.startswith("$"):
+        out.append(w[1:])
+    if w.endswith("$"):
+        out.append(w[:-1])
+    if "\\d" in w:
+        out.append(w.replace("\\d", "7"))
+    if w.startswith("[") and w.endswith("]") and len(w) > 2:
+        out += [w[1], w[1:-1]]
+    if w.startswith("(") and w.endswith(")") and len(w) > 2:
+        out.append(w[1:-1])
+    return [x for x in dict.fromkeys(out) if x and x != w and not any(c.isspace() for c in x)]
 MSG_DEBUGGER = "`debugger` statement is not allowed"
 
 
@@ -166,6 +189,9 @@ def gen_scenario(rng, force=None):
     words_file = [fw or DEFAULT_FW]
     words_line = [lw or DEFAULT_LW]
     allwords = list(dict.fromkeys(words_file + words_line + [DEFAULT_FW, DEFAULT_LW] + ([rng.choice(CUSTOM_WORDS)] if rng.random() < 0.3 else [])))
+    if (fw or lw) and rng.random() < 0.5:
+        nm = near_misses(fw or lw) + (near_misses(lw) if fw and lw else [])
+        allwords = list(dict.fromkeys(allwords + rng.sample(nm, min(len(nm), 2))))
     # external linter
     ext_mode = rng.choice(["none", "none", "decline", "some", "some", "some"])
     decl = []
